@@ -213,13 +213,43 @@ def _check_p3(ctx, r, name, acc):
                     detail.append("%s is called from the closure that also performs the traversal: the scan is interleaved with the lowering of earlier items" % w.split("::")[-1])
             for blk in blocks:
                 after = any(blk in g.reach_after(tt) for tt in tb)
-                before = all(g.dominates(blk, tt) for tt in tb) if tb else False
+                # "before": it dominates the traversal, or it sits in a loop that is left before the traversal starts (a scan over the items)
+                before = all(g.dominates(blk, tt) or (g.can_reach(blk, tt) and blk in g.reach_after(blk))
+                             for tt in tb) if tb else False
                 if after or not before:
                     ok = False
                     detail.append("call site bb%d of %s is %s the child traversal" % (blk, w.split("::")[-1], "reachable after" if after else "not always before"))
         key = "%s is written only by the pre-pass before the traversal" % name
         loc = C.mloc(sites[0][0], sites[0][2]) if sites else "-"
         r.ob(key, ok, loc, "; ".join(detail) if detail else "%d call site(s) of %s, all in the module method and dominating its child traversal" % (len(sites), w.split("::")[-1]))
+
+
+def _borrowed_local(fl, op):
+    """the local x of an operand `&mut x` (through re-borrows), or None"""
+    p = place_of(op)
+    seen = set()
+    while p is not None and p["l"] not in seen:
+        seen.add(p["l"])
+        d = fl.defs.get(p["l"], [])
+        if len(d) != 1 or d[0][0] != "stmt":
+            return None
+        rv = d[0][2]["rv"]
+        if rv.get("rk") == "use":
+            p = place_of(rv.get("op"))
+        elif rv.get("rk") == "ref":
+            q = rv["place"]
+            if not (q.get("p") or []):
+                return q["l"]
+            p = {"l": q["l"]} if q.get("p") == ["*"] else None
+        else:
+            return None
+    return None
+
+
+def _fresh_empty(fl, local):
+    """the local's only definition is an empty vector"""
+    d = fl.defs.get(local, [])
+    return len(d) == 1 and d[0][0] == "call" and re.search(r"(Vec::<T>::new|Vec::<T, A>::new|Default>::default|Vec::<T>::with_capacity)$", callee_name(d[0][2])) is not None
 
 
 def _closure_use_blocks(mb, closure_body):
@@ -239,6 +269,7 @@ def _check_scope(ctx, r, name):
         tb = _traversal_blocks(mb, ctx.facts)
         takes = []
         stores = []
+        swaps = []      # mem::swap(&mut self.<name>, &mut local): a save when the local is a fresh empty vector, a restore when it holds the saved one
         for blk in mb["blocks"]:
             if blk.get("cleanup"):
                 continue
@@ -246,6 +277,11 @@ def _check_scope(ctx, r, name):
             if t.get("k") == "call" and callee_name(t).endswith("core::mem::take") and t["args"]:
                 if name in {first_field(f) for f in self_field_of(fl.op_sources(t["args"][0]))}:
                     takes.append((blk["i"], t))
+            if t.get("k") == "call" and callee_name(t).endswith("core::mem::swap") and len(t["args"]) == 2:
+                fa = [name in {first_field(f) for f in self_field_of(fl.op_sources(a))} for a in t["args"]]
+                if fa[0] != fa[1]:
+                    other = t["args"][1] if fa[0] else t["args"][0]
+                    swaps.append((blk["i"], t, _borrowed_local(fl, other)))
             for s in blk["stmts"]:
                 if s["k"] == "assign" and "*" in (s["lhs"].get("p") or []) and name in {first_field(f) for f in self_field_of(fl.place_sources(s["lhs"]))}:
                     stores.append((blk["i"], s))
@@ -257,6 +293,9 @@ def _check_scope(ctx, r, name):
             r.ob("%s: %s drained at the outermost scope" % (hb["name"], name), True, C.mloc(mb, drains[0][1]), "root scope: nothing can be pending on entry (fields start empty)")
             continue
         saves = [(b, t) for b, t in takes if tb and all(g.dominates(b, tt) for tt in tb) and not any(b in g.reach_after(tt) for tt in tb)]
+        swap_saves = [(b, t, l) for b, t, l in swaps if l is not None and tb and all(g.dominates(b, tt) for tt in tb) and not any(b in g.reach_after(tt) for tt in tb)
+                      and _fresh_empty(fl, l)]
+        saves = saves + [(b, t) for b, t, l in swap_saves]
         if not saves:
             r.ob(key, False, C.mloc(mb, drains[0][1]),
                  "`%s` is drained after the child traversal but not saved before it: declarations pending from the enclosing scope are emitted into this (inner) scope" % name)
@@ -269,6 +308,10 @@ def _check_scope(ctx, r, name):
             if src is None or not any(b in g.reach_after(tt) for tt in tb):
                 continue
             if any(x[0] == "call" and x[1].endswith("core::mem::take") and x[2] in save_bbs for x in fl.sources(src["l"])):
+                restore_blocks.add(b)
+        for b, t, l in swaps:
+            # swapping the saved vector back after the traversal restores it
+            if any(b in g.reach_after(tt) for tt in tb) and l is not None and any(l == sl for _, _, sl in swap_saves):
                 restore_blocks.add(b)
         last_t = tb[-1]
         # abstract walk over {is `injecting_*` empty?}: whatever this scope left pending must be drained before
@@ -335,6 +378,9 @@ def _abstract_drain_check(ctx, mb, g, fl, start, name, restore_blocks):
             blk = mb["blocks"][b]
             if b in restore_blocks:
                 # is this the restore of `name`?
+                tt_ = blk.get("term") or {}
+                if tt_.get("k") == "call" and callee_name(tt_).endswith("core::mem::swap") and not state[name]:
+                    return (b, ", ".join("%s %s" % (k, "empty" if v else "non-empty") for k, v in sorted(state0.items())))
                 for s in blk["stmts"]:
                     if s["k"] == "assign" and "*" in (s["lhs"].get("p") or []) and name in {first_field(f) for f in self_field_of(fl.place_sources(s["lhs"]))}:
                         if not state[name]:
